@@ -558,6 +558,8 @@ def t_cross(arg, acc):
     cat = catalogue()
     names = sorted(cat)
     a_names = names[arg['shard']::arg['nshard']]
+    if arg.get('targets'):
+        names = sorted(n for n in names if arg['targets'] in cat[n].props)       # only "then" operations this property is anchored in
     cold = {}
     for nb in names:
         try:
@@ -573,13 +575,16 @@ def t_cross(arg, acc):
             case = {'kind': 'histop', 'op': na, 'mode': 'cross', 'then': nb}
             acc.transitions += 1
             chk_case(case, acc, seed)
-    acc.cls('history:cross-pairs', len(a_names) * (len(names) - 1))
+    acc.cls('history:cross-pairs', len(a_names) * max(len(names) - 1, 0))
 
 
 def tasks_for(pid, seed):
     tasks = [('t_callhist', {'seed': seed, 'op': name}) for name, o in sorted(catalogue().items()) if pid in o.props]
     if pid == 'C10':
         tasks += [('t_cross', {'seed': seed, 'shard': k, 'nshard': 8}) for k in range(8)]
+    else:
+        # any operation of the catalogue first, then one this property is anchored in (state poisoned by another function)
+        tasks += [('t_cross', {'seed': seed, 'shard': k, 'nshard': 2, 'targets': pid}) for k in range(2)]
     return tasks
 
 
